@@ -170,7 +170,8 @@ def gen_case(rng, idx=0):
             steps.append(["read", rng.choice([None, rng.randint(0, 70000)])])
     bufsize = rng.choice([-1, -1, -1, 0, 1, 64, 8192, 65536])
     return dict(size=size, cseed=rng.randrange(1 << 30), short=short, short_at=short_at, steps=steps,
-                bufsize=bufsize, jitter=rng.choice([0, 0, 1, 2]), gated=rng.random() < 0.2, jseed=rng.randrange(1 << 30))
+                bufsize=bufsize, jitter=rng.choice([0, 0, 1, 2]), gated=rng.random() < 0.2, jseed=rng.randrange(1 << 30),
+                early=rng.random() < 0.4)
 
 
 # --------------------------------------------------------------------------
@@ -345,6 +346,8 @@ class CaseRun:
             jr2 = random.Random(case["jseed"] + 1)
             jit = case["jitter"] == 2
             self.prefetch_ids = set()
+            self.dispatched = set()  # request numbers whose answer entered _async_response
+            self.early_answers = 0  # answers dispatched before the prefetch thread registered the request
             self.started = []  # chunk-list length of every _start_prefetch
 
             def areq(fileobj, *a, **kw):
@@ -353,12 +356,24 @@ class CaseRun:
                 num = real_req(fileobj, *a, **kw)
                 if fileobj is f:
                     self.prefetch_ids.add(num)
+                    if case.get("early"):
+                        # deterministic "answer before registration" schedule: hold the
+                        # prefetch thread at the return of _async_request (i.e. before it
+                        # executes `_prefetch_extents[num] = ...`) until the reader has
+                        # dispatched the answer to this very request into
+                        # _async_response (bounded: the reader may not be reading)
+                        end = time.monotonic() + 0.05
+                        while num not in self.dispatched and time.monotonic() < end:
+                            time.sleep(0.0003)
+                        if num in self.dispatched:
+                            self.early_answers += 1
                 return num
 
-            def aresp(*a, **kw):
+            def aresp(t, msg, num, *a, **kw):
+                self.dispatched.add(num)
                 if jit and jr2.random() < 0.3:
                     time.sleep(jr2.choice([0.0002, 0.001]))
-                return real_resp(*a, **kw)
+                return real_resp(t, msg, num, *a, **kw)
 
             def astart(chunks, *a, **kw):
                 self.started.append(len(chunks))
@@ -426,7 +441,7 @@ class CaseRun:
                         short_inside += 1
             out.update(read_requests=len(reads), prefetch_requests=len(self.prefetch_ids),
                        prefetch_starts=list(self.started), status_replies_to_reads=status_to_read,
-                       saved_exceptions_raised=list(self.saved_raised),
+                       saved_exceptions_raised=list(self.saved_raised), early_answers=self.early_answers,
                        short_replies_inside_file=short_inside, results=self.results)
         finally:
             try:
